@@ -476,6 +476,43 @@ def handwritten_leaves(F):
     return out
 
 
+def is_none_aliases(F):
+    """hand-written /repo predicates that are `Option::is_none` under another name (`fn is_unset<T>(m: &Option<T>) -> bool
+    { m.is_none() }`, or the same as a match): on their path summaries the result is exactly `the argument is None`"""
+    cached = getattr(F, "_is_none_aliases", None)
+    if cached is not None:
+        return cached
+    from . import sym as S
+    from . import hirq as H
+    out = set()
+    for f in F.fns:
+        if (f.get("pv") or "user") != "user" or f.get("output") != "bool" or len(f.get("params") or []) != 1 or not (f.get("inputs") or [""])[0].startswith("&core::option::Option<"):
+            continue
+        b = H.pat_bindings(f["params"][0])
+        if len(b) != 1:
+            continue
+        P = ("param", b[0][0])
+        try:
+            sy = S.Sym(F, f, inline=lambda path, node: False)
+            paths = sy.run()
+        except S.TooManyPaths:
+            continue
+        ok = bool(paths)
+        for p in paths:
+            if p.done and p.done[0] == "panic" or p.effects:
+                ok = False
+            elif p.result == ("test", P, S.NONE):
+                continue
+            elif p.result in (("lit", True), ("lit", False)) and sy.lookup(p, P) in (S.NONE, S.SOME):
+                ok = ok and (p.result[1] == (sy.lookup(p, P) == S.NONE))
+            else:
+                ok = False
+        if ok:
+            out.add(f["path"])
+    F._is_none_aliases = out
+    return out
+
+
 def ser_table(F, fn):
     """map-emission table of a Serialize impl: generated impls are read from their (stable) expansion shape, hand-written ones
     from their path summaries"""
@@ -484,7 +521,14 @@ def ser_table(F, fn):
         t = map_emitter_sym(F, fn)
         if t is not None:
             return t
-    return T.map_ser_table(fn)
+    t = T.map_ser_table(fn)
+    al = is_none_aliases(F)
+    if al and t:
+        for m in t.get("entries", []):
+            g = m.get("guard")
+            if g and g.get("pred") in al:
+                g["pred"] = T.IS_NONE       # a named wrapper of Option::is_none
+    return t
 
 
 def map_emitter_sym(F, fn):
